@@ -234,6 +234,11 @@ func delayScenario() *explore.Scenario {
 		d := &middleware.DelayOnError{InitialInterval: initial, MaxInterval: max, Multiplier: mult}
 		n := 1 + vs.Choose(5, 0, "script length")
 		msg := hx.Msg("m")
+		// what the message carries before its first failure here: nothing, or something that is not a duration
+		// (then the first failure starts the series at InitialInterval all the same)
+		if vs.Choose(2, 0, "metadata before the first failure") == 1 {
+			msg.Metadata.Set(delay.DelayedForKey, "not a duration")
+		}
 		fail := false
 		h := d.Middleware(func(m *message.Message) ([]*message.Message, error) {
 			if fail {
